@@ -18,6 +18,12 @@ CLAIMS = {
   "operator precedence tables vs the grammar extracted from the parser and ECMA-262, restoration of printer context flags on all paths, recursion of hasSideEffects into every "
   "evaluated operand, global names only assumed when undeclared, consistency of string-literal length tests, regexp escape tables. Does not decide the correctness of the algebraic rewrites.",
   OTHER_NOTE, "DESIGN.md §4 C01"),
+ "C02": ("other",
+  "worlds (correlated-branch) must-pass-through search on the CFG, truth tables over guard atoms, SSA store enumeration, constant tables",
+  "Decides six structural necessary conditions of capture-free renaming (R02.1-R02.6, DESIGN.md §4 C02): every printed scope is renamed first on all feasible paths; the rename switch implies "
+  "¬HasWith ∧ ¬KeepVarNames; every generated name passes isReserved, which consults all keywords and all undeclared variables; only renameScope writes identifier names and never the "
+  "program scope, labels, property or import/export names; hoisted names are registered in intermediate scopes; the name alphabets are valid and duplicate-free.",
+  OTHER_NOTE, "DESIGN.md §4 C02"),
  "C17": ("proof",
   "constant-table evaluation from the type-checked syntax tree, compared entry by entry with reference tables",
   "Every entry of every built-in rewrite table (entities, colours, units, tag/attribute traits, MIME types, perfect-hash files) is evaluated from "
